@@ -49,10 +49,13 @@ type HeapPtr struct {
 
 type Tuple []Value
 
-// IterV is a string range iterator.
+// IterV is a range iterator over a string (Cell holds the byte position) or
+// over a map (Cell holds the set of keys already visited).
 type IterV struct {
 	Str  *Term
-	Cell *Cell // holds the byte position (Int)
+	Cell *Cell
+	Map  *Term      // map reference, for map iteration
+	MapT *types.Map
 }
 
 // FuncV is a function value known statically.
@@ -115,12 +118,13 @@ type State struct {
 	trace  []int
 	entry  *Snapshot
 	dead   bool
+	errSeen *Term // ghost: some callee returned a non-nil error on this path
 }
 
 func (s *State) top() *Frame { return s.frames[len(s.frames)-1] }
 
 func (s *State) clone() *State {
-	n := &State{alloc: s.alloc, entry: s.entry}
+	n := &State{alloc: s.alloc, entry: s.entry, errSeen: s.errSeen}
 	n.frames = make([]*Frame, len(s.frames))
 	for i, f := range s.frames {
 		n.frames[i] = f.clone()
